@@ -296,7 +296,7 @@ def exec_part_a(ctx, drv, exes, cases, add_sweep=True):
             mine += sweep_cases(ctx, nm)
         if fl.startswith("asan") and heavy is not None:
             # ~1 GB reservations cost ~50 ms each under ASan (shadow poisoning): keep only a few of those cases there
-            budget = [ctx.n(40, 400)]
+            budget = [ctx.n(15, 300)]
 
             def keep(c):
                 if c[0] not in heavy:
